@@ -181,7 +181,7 @@ def safe(f, default=False):
 
 
 def run_case(k, case, tmpdir, mode):
-    modname = "zi_c13_%s_%d" % (mode, k)
+    modname = "zi_c13_%d" % k
     with open(os.path.join(tmpdir, modname + ".py"), "w") as fh:
         fh.write(module_source(case))
     importlib.invalidate_caches()
